@@ -1212,15 +1212,13 @@ def _eval_chunk(col, env, scenario, case, sig):
 HISTORY_MODES = ("setattr", "replace")
 
 
-def _new_value(v, salt=1):
-    """a value of the same type and length as the column v with other contents; salt 2: another one, different from salt 1"""
+def _new_value(v):
+    """a value of the same type and length as the column v with other contents (None: there is none)"""
     import numpy as np
     if isinstance(v, np.ndarray) and v.dtype.kind in "iuf":
-        return v + salt
+        return v + 1
     if isinstance(v, np.ndarray) and v.dtype.kind == "b":
-        return ~v if salt == 1 else v.copy()
-    if salt != 1:
-        return v                           # the file's own rows (the salt 1 value differs from them)
+        return ~v
     n = len(v)
     if n < 2:
         return None
@@ -1244,7 +1242,7 @@ def _settable(env):
             if env.V0[k][0] == "raises":
                 continue
             try:
-                if _new_value(read_field(c, k), 1) is not None:
+                if _new_value(read_field(c, k)) is not None:
                     env._settable.append(k)
             except Exception:
                 pass
@@ -1254,26 +1252,29 @@ def _settable(env):
 def _history_start(env, mode, f1, read_first=False):
     """step 1 -> (source chunk or None, T, new1)"""
     import bionumpy as bnp
-    new1 = _new_value(read_field(env.fresh(), f1), 1)
-    if new1 is None:
-        return None, None, None
     c = env.fresh()
     if read_first:                         # every field parsed (and cached by the lazy table) before the assignment
         for p in env.paths:
             read_snap(c, p)
+    new1 = _new_value(read_field(c, f1))   # the usual pattern: chunk.start = chunk.start + 1 / replace(chunk, start=chunk.start + 1)
+    if new1 is None:
+        return None, None, None
     if mode == "setattr":
         setattr(c, f1, new1)
         return None, c, new1
     return c, bnp.replace(c, **{f1: new1}), new1
 
 
-def _observe(env, T):
-    """everything the property lets a user see of a chunk: fields, written bytes, tolist()"""
-    obs = [["field:" + p, read_snap(T, p)] for p in env.paths]
+def _observe(env, T, light=False):
+    """everything the property lets a user see of a chunk: fields, written bytes, tolist()
+    (light: the top-level columns and the written bytes only - nested INFO tables and tolist() left out)"""
+    obs = [["field:" + p, read_snap(T, p)] for p in (env.plain_top if light else env.paths)]
     try:
         obs.append(["written-bytes", ["bytes", env.write(T).decode("latin1")]])
     except Exception as e:
         obs.append(["written-bytes", ["raises", type(e).__name__]])
+    if light:
+        return obs
     try:
         obs.append(["tolist", ["value", snap(T.tolist())]])
     except Exception as e:
@@ -1281,10 +1282,10 @@ def _observe(env, T):
     return obs
 
 
-def _history_baseline(env, mode, f1, read_first):
-    key = (mode, f1, bool(read_first))
+def _history_baseline(env, mode, f1, read_first, light):
+    key = (mode, f1, bool(read_first), bool(light))
     if key not in env._hist_base:
-        env._hist_base[key] = _observe(env, _history_start(env, mode, f1, read_first)[1])
+        env._hist_base[key] = _observe(env, _history_start(env, mode, f1, read_first)[1], light)
     return env._hist_base[key]
 
 
@@ -1330,7 +1331,6 @@ def _history_ops(env):
         "repr": lambda T, twin: repr(T),
         "iter": lambda T, twin: list(T),
         "toiter": lambda T, twin: list(T.toiter()),
-        "todict": lambda T, twin: T.todict(),
     }
     for name, f in _table_functions_for_chunk(env).items():
         if name not in ("concatenate", "getitem-mask", "getitem-reverse"):
@@ -1354,22 +1354,22 @@ def _eval_history(col, env, scenario, case, sig):
         return _eval_history_chain(col, env, scenario, case, sig)
     mode, f1, op, f2 = scenario[1:5]
     flags = scenario[5] if len(scenario) > 5 else []
-    read_first, observe_first = "read-first" in flags, "observe-first" in flags
+    read_first, observe_first, light = "read-first" in flags, "observe-first" in flags, "light" in flags
     opc = _op_class(op)
     B, T, new1 = _history_start(env, mode, f1, read_first)
     if new1 is None:
         return False
     if observe_first:
-        base = _observe(env, T)
+        base = _observe(env, T, light)
     else:
-        base = _history_baseline(env, mode, f1, read_first)
+        base = _history_baseline(env, mode, f1, read_first, light)
     watched = [new1]
     pT = chunk_private_state(T)
     pB = chunk_private_state(B) if B is not None else None
     applied = True
     new2 = None
     if op in HISTORY_FIELD_OPS:
-        new2 = _new_value(read_field(env.fresh(), f2), 1 if f2 != f1 else 2)
+        new2 = _new_value(read_field(T, f2))       # differs from what T holds in f2 (for f2 == f1: from new1)
         if new2 is None:
             return False
         watched.append(new2)
@@ -1384,10 +1384,11 @@ def _eval_history(col, env, scenario, case, sig):
             R = bnp.replace(T[::-1], **{f2: new2})
         else:
             R = _history_ops(env)[op](T, lambda: _history_start(env, mode, f1, read_first)[1])
-        _use(env, R)
+        if not light:
+            _use(env, R)
     except Exception:
         applied = False
-    got = _observe(env, T)
+    got = _observe(env, T, light)
     _compare_obs(col, case, lambda o: sig("history:%s:original-%s-changed" % (opc, o)), base, got,
                  "chunk with %s set by %s, after %s%s" % (f1, mode, op, "(%s)" % f2 if f2 else ""))
     s1 = snap(watched)
@@ -1413,7 +1414,7 @@ def _chain(env, fields, upto, first_by_setattr):
     import bionumpy as bnp
     ts = [env.fresh()]
     for i, f in enumerate(fields[:upto]):
-        new = _new_value(read_field(env.fresh(), f), 1)
+        new = _new_value(read_field(ts[-1], f))
         if i == 0 and first_by_setattr:
             setattr(ts[0], f, new)
             ts.append(ts[0])
@@ -1436,87 +1437,131 @@ def _eval_history_chain(col, env, scenario, case, sig):
     return True
 
 
-def _ring(fields):
-    """every field once as the first and once as the second of a pair, in both orders"""
+def _ring(fields, both_orders=True):
+    """every field once as the first and once as the second of a pair (both_orders: and every such pair reversed)"""
     n = len(fields)
-    if n < 2:
-        return []
     out = []
-    for i in range(n):
+    for i in range(n if n > 2 else n - 1):
         a, b = fields[i], fields[(i + 1) % n]
-        for pair in ((a, b), (b, a)):
-            if pair not in out:
-                out.append(pair)
+        out.append((a, b))
+        if both_orders:
+            out.append((b, a))
     return out
 
 
-ALL_PAIRS_IN_QUICK = 7      # quick tier: all ordered pairs for formats with at most this many assignable columns, else the ring
+def _representatives(env, S):
+    """one assignable column per kind of value (type, dtype kind), and every sequence column"""
+    c = env.fresh()
+    seen, out = set(), []
+    for k in S:
+        v = read_field(c, k)
+        key = (type(v).__name__, getattr(getattr(v, "dtype", None), "kind", ""))
+        if key not in seen or k in ("sequence", "dna"):
+            seen.add(key)
+            out.append(k)
+    return out
+
+
+# quick tier: formats whose chunks are cheap to read, write and parse get the whole treatment (all ordered pairs ...)
+HISTORY_CHEAP = ("bed", "bed6", "bdg", "fastq", "fastq-codons", "gfa", "sizes", "pairs")
+HISTORY_OPS_SHORT = ("replace-nothing", "getitem/reverse", "getitem/mask", "getitem/int", "concatenate/same-history", "write", "tolist",
+                     "get_data_object", "get_reverse_complement", "translate_dna_to_protein")
+HISTORY_OPS_NOT_IN_QUICK = ("repr", "iter", "toiter", "len", "getitem/int-last", "getitem/all", "write/slice", "concatenate/fresh-first")
+HISTORY_EXTRAS = (("replace", ["observe-first"]), ("slice-setattr", []), ("replace", ["read-first"]), ("slice-replace", []),
+                  ("slice-setattr", ["read-first"]))
 
 
 def history_scenarios(env, tier, full_file):
-    """level 3: thorough, whole pool / 2: quick, whole pool / 1: thorough, sub-selection / 0: quick, first line only"""
+    """what is enumerated depends on the class of the file:
+       thorough  'full' (whole pool of lines) / 'sub' (any other sub-selection of the pool)
+       quick     'cheap' / 'medium' / 'light' (whole pool, by cost of the format) / 'single' (first line only)"""
     if not env.lazy:
         return
-    level = (3 if full_file else 1) if tier != "quick" else (2 if full_file else 0)
     S = _settable(env)
     if not S:
         return
+    if tier != "quick":
+        cls = "full" if full_file else "sub"
+    elif not full_file:
+        cls = "single"
+    else:
+        cls = "cheap" if env.fmt in HISTORY_CHEAP else ("light" if env.fmt in LIGHT_IN_QUICK else "medium")
+    M = HISTORY_MODES
+    L = [["light"]] if cls in ("light", "single") else []
+    fwd = _ring(S, both_orders=False)
     ring = _ring(S)
-    all_pairs = [(a, b) for a in S for b in S]                      # includes f2 == f1 (replaced by yet another value)
-    if level == 3 or (level == 2 and len(S) <= ALL_PAIRS_IN_QUICK):
-        pairs = all_pairs
+    alt = lambda i: M[(i // 2 + i) % 2]
+    # (a) bnp.replace(T, f2=..) on a chunk T that carries a user-set f1: ordered pairs of columns
+    if cls in ("full", "cheap"):
+        # all ordered pairs (f2 == f1: replaced by yet another value); off the ring: light observation, and in the quick
+        # tier one of the two ways of setting f1 only
+        for i, a in enumerate(S):
+            for j, b in enumerate(S):
+                for mode in (M if (cls == "full" or (a, b) in ring) else M[(i + j) % 2:(i + j) % 2 + 1]):
+                    yield ["history", mode, a, "replace", b] + ([] if (a, b) in ring else [["light"]])
+    elif cls == "medium":
+        for i, (a, b) in enumerate(ring):  # forward pairs: full observation, reversed pairs: light
+            yield ["history", alt(i), a, "replace", b] + ([["light"]] if i % 2 else [])
     else:
-        pairs = ring
-    # (a) replace of f2 on a chunk that carries f1
-    for mode in HISTORY_MODES:
-        for a, b in pairs:
-            yield ["history", mode, a, "replace", b]
-            if level == 3:
-                yield ["history", mode, a, "replace", b, ["read-first"]]
-    for i, (a, b) in enumerate(ring):
-        modes = HISTORY_MODES if level in (1, 3) else HISTORY_MODES[i % 2:i % 2 + 1]
-        for mode in modes:
-            if level >= 1:
-                yield ["history", mode, a, "replace", b, ["observe-first"]]
-                yield ["history", mode, a, "slice-setattr", b]
-            if level == 3 or (level == 2 and i % 2 == 0):
-                yield ["history", mode, a, "slice-replace", b]
-            if level in (1, 2):
-                yield ["history", mode, a, "replace", b, ["read-first"]]
-            if level == 3:
-                yield ["history", mode, a, "slice-setattr", b, ["read-first"]]
-    # (b) second operations without a field argument
+        for i, (a, b) in enumerate(fwd[:2] if cls == "single" else fwd):
+            yield ["history", M[(i + len(env.lines)) % 2], a, "replace", b] + L
+    # (b) variants on the forward ring: T observed before the second operation as well, all fields parsed before the
+    #     assignment, assignment / replace on a slice of T
+    for i, (a, b) in enumerate(fwd):
+        if cls == "full":
+            for op, fl in HISTORY_EXTRAS[:4]:
+                for mode in (M if not fl or fl == ["observe-first"] else M[i % 2:i % 2 + 1]):
+                    yield ["history", mode, a, op, b] + ([fl] if fl else [])
+            yield ["history", M[1 - i % 2], a, "slice-setattr", b, ["read-first"]]
+        elif cls == "cheap":
+            for op, fl in HISTORY_EXTRAS[:4]:
+                yield ["history", M[i % 2], a, op, b] + ([fl] if fl else [])
+        elif cls == "sub":
+            op, fl = HISTORY_EXTRAS[(i + len(env.lines)) % len(HISTORY_EXTRAS)]
+            yield ["history", M[i % 2], a, op, b] + ([fl] if fl else [])
+        elif cls == "medium" and i < 4:
+            op, fl = HISTORY_EXTRAS[i]
+            yield ["history", M[i % 2], a, op, b] + ([fl] if fl else [])
+    # (c) second operations without a field argument
     ops = list(_history_ops(env))
-    seq_fields = [k for k in S if k in ("sequence", "dna")]
-    if level == 3:
-        firsts = [(m, k, fl) for k in S for m in HISTORY_MODES for fl in ([], ["read-first"])]
-    elif level == 2:
-        firsts = [(HISTORY_MODES[i % 2], k, []) for i, k in enumerate(S[:2])]
-        firsts += [(m, k, []) for k in seq_fields for m in HISTORY_MODES if (m, k, []) not in firsts]
-    elif level == 1:
-        firsts = [(HISTORY_MODES[(i + len(env.lines)) % 2], k, []) for i, k in enumerate(S[:2])]
+    if cls == "full":
+        reps = _representatives(env, S)
+        firsts = [(m, k) for k in reps for m in M]
+    elif cls == "cheap":
+        ops = [o for o in ops if o not in HISTORY_OPS_NOT_IN_QUICK]
+        firsts = [(M[len(S) % 2], S[1 % len(S)])]
+        firsts += [(m, k) for k in S if k in ("sequence", "dna") for m in M if (m, k) not in firsts]
     else:
-        firsts = [("setattr", S[0], [])]
-        ops = [o for o in ops if _op_class(o) in ("replace-nothing", "getitem", "write", "tolist")]
-    for mode, k, fl in firsts:
+        short = HISTORY_OPS_SHORT if cls in ("medium", "sub") else (("replace-nothing", "getitem/reverse", "concatenate/same-history", "write",
+                                                                     "tolist") if cls == "light" else ("write",))
+        ops = [o for o in ops if o in short]
+        firsts = [(M[len(env.lines) % 2], S[len(env.lines) % len(S)])]
+        if cls == "sub":
+            firsts += [(M[(1 + len(env.lines)) % 2], k) for k in S if k in ("sequence", "dna") and k != firsts[0][1]]
+    for mode, k in firsts:
         for op in ops:
-            yield ["history", mode, k, op, None] + ([fl] if fl else [])
-    if level >= 2:
-        for k in S[:2]:
+            yield ["history", mode, k, op, None] + L
+    if cls in ("full", "cheap"):
+        for k in (S[:2] if cls == "full" else S[:1]):
             for op in ("replace-nothing", "getitem/reverse", "concatenate/same-history", "write", "get_data_object"):
                 yield ["history", "replace", k, op, None, ["observe-first"]]
-    # (c) chains of replace: t1 = replace(t, a=..); t2 = replace(t1, b=..); ... - every earlier chunk observed at the end
-    chains = [S[:2], S[:4], S[::-1][:4]]
-    if level >= 2:
-        chains += [S, S[::-1]]
-    if level == 3:
+    # (d) chains of replace: t1 = replace(t, a=..); t2 = replace(t1, b=..); ... - every earlier chunk observed at the end
+    chains = [S[:2], S[:3]]
+    if cls in ("full", "cheap", "medium"):
+        chains += [S[::-1][:3]]
+    if cls in ("full", "cheap"):
+        chains += [S] + ([S[:4], S[::-1][:4], S[::-1]] if cls == "full" else [])
+    if cls == "full":
         chains += [[S[(i + j) % len(S)] for j in range(3)] for i in range(len(S))]
+    if cls in ("single", "light"):
+        chains = chains[:1] if cls == "light" else []
     seen = []
     for ch in chains:
-        if len(ch) >= 2 and ch not in seen:
+        if len(ch) >= 2 and len(set(ch)) == len(ch) and ch not in seen:
             seen.append(ch)
             yield ["history-chain", "replace", ch]
-            yield ["history-chain", "setattr", ch]
+            if cls != "single":
+                yield ["history-chain", "setattr", ch]
 
 
 LIGHT_IN_QUICK = ("fastq-codons", "vcf-info-string", "vcf-gt-phased", "vcf-gt-haplotype", "vcf-gt-strings", "vcf-noheader", "gff", "bed12-trailing-comma")
